@@ -25,6 +25,7 @@ ASSUMPTIONS = ['reference semantics: patch key k -> dict value + opt-in direct c
 SHRINK = 'greedy'
 SHRINK_RUNS = 300
 TIME_BUDGET = {'quick': 150, 'thorough': 1500}
+FUZZ = {'quick': (2, 3000), 'thorough': (4, 150000)}     # coverage-guided shards: (processes, libFuzzer runs each)
 REQUIRED = {'quick': {'patch_nonempty': 2000, 'patch_child_dict': 300, 'patch_nested2': 50, 'history_failing_before': 300, 'threads': 100, 'patch_fresh_key': 300},
             'thorough': {'patch_nonempty': 20000, 'patch_child_dict': 3000, 'patch_nested2': 500, 'history_failing_before': 3000, 'threads': 1000}}
 
